@@ -104,8 +104,10 @@ def eval_any(case, rng):
         flows.append(gen.random_quic_flow(rng, i, napp=rng.choice([2, 6])) if rng.random() < 0.4 else gen.random_tls_flow(rng, i, nmax=8, segkinds=tcpcap.CUT_KINDS, perturb=rng.random() < 0.2, duplex=rng.random() < 0.25, repack=rng.random() < 0.15))
     noise = []
     for k in range(rng.choice([0, 0, 1, 3])):
-        kind = rng.choice(["http", "udp", "udpq", "other"])
-        if kind == "http":
+        kind = rng.choice(["http", "udp", "udpq", "other", "link"])
+        if kind == "link":
+            noise.append(scene.link_noise(rng, rng.randrange(1, 5), k))
+        elif kind == "http":
             noise.append(scene.http_on_443(rng, k, rng.random() < 0.4))
         elif kind == "udp":
             noise.append(scene.udp_noise(rng, rng.randrange(1, 5), k, rng.random() < 0.4))
